@@ -29,7 +29,9 @@ pub open spec fn glb_post<'a, T, K: Ord>(s: Seq<T>, key: K, kf: spec_fn(T) -> K,
     &&& res matches Some((j, r)) ==> exists|p: int| 0 <= p < s.len() && r == &#[trigger] s[p]
             && le(kf(s[p]), key)
             && (forall|i: int| 0 <= i < s.len() && le(#[trigger] kf(s[i]), key) ==> le(kf(s[i]), kf(s[p])))
-            && (kf(s[p]) == key ==> p == j && forall|i: int| 0 <= i < p ==> #[trigger] kf(s[i]) != key)
+            // the index handed back is the index of the element handed back (C17 walks back from it)
+            && p == j
+            && (kf(s[p]) == key ==> forall|i: int| 0 <= i < p ==> #[trigger] kf(s[i]) != key)
 }
 
 pub open spec fn err_facts<T, K: Ord>(s: Seq<T>, key: K, kf: spec_fn(T) -> K, index: int) -> bool {
@@ -39,9 +41,9 @@ pub open spec fn err_facts<T, K: Ord>(s: Seq<T>, key: K, kf: spec_fn(T) -> K, in
 }
 
 //@ lemma_glb_err [C04 C08 C14]
-pub proof fn lemma_glb_err<'a, T, K: Ord>(s: Seq<T>, key: K, kf: spec_fn(T) -> K, index: int, r: &'a T)
-    requires ord_laws::<K>(), sorted_kf(s, kf), err_facts(s, key, kf, index), index > 0, r == &s[index - 1],
-    ensures glb_post(s, key, kf, Some((index as usize, r)))
+pub proof fn lemma_glb_err<'a, T, K: Ord>(s: Seq<T>, key: K, kf: spec_fn(T) -> K, index: int, j: usize, r: &'a T)
+    requires ord_laws::<K>(), sorted_kf(s, kf), err_facts(s, key, kf, index), index > 0, r == &s[index - 1], j as int == index - 1,
+    ensures glb_post(s, key, kf, Some((j, r)))
 {
     let p = index - 1;
     assert(lt(kf(s[p]), key));
